@@ -16,7 +16,7 @@ func init() {
 	register(&Property{
 		Meta: report.Meta{
 			Property:    "C16",
-			Explanation: "Table agreement and must-facts in package did: (R1) the multicodec codes did.FromPubKey / codeForCurve can emit are a subset of the codes did.Parse accepts, which are a subset of the keys of DID.PubKey's unmarshaller table (type-resolved constants read off the CFG); (R2) layout — Parse stores the whole multibase payload and the code decoded from its varint prefix, FromPubKey builds varint(code) ++ key with the same code it stores, PubKey strips UvarintSize(code) bytes and selects the unmarshaller by the stored code; (R3) Parse cannot succeed without the did:key: prefix, multibase decoding, base58btc, varint decoding and a whitelisted code; (R4) canonical identifier — PubKey returns a key only if the DID re-derived from it with FromPubKey equals the receiver (or, alternative idiom, a length fact rules out the uncompressed secp256k1 form); (R5) the compressed-point unmarshaller checks the nil result of elliptic.UnmarshalCompressed. (R3, closed world) Parse refuses a string only for: missing did:key: prefix, multibase error, not base58btc, varint error, multicodec not whitelisted - any other rejection could refuse identifiers FromPubKey produces. Equality of keys after a round trip is the libraries' behaviour and is not decided. Key unmarshallers (func([]byte) (crypto.PubKey, error) in package did): every condition on a refusing path is the error / nil verdict of a library call. did.ToPubKey returns (DID).PubKey(did.Parse(text)). (R5) no Store in a function literal of package did has an address derived from a free variable.",
+			Explanation: "Table agreement and must-facts in package did: (R1) the multicodec codes did.FromPubKey / codeForCurve can emit are a subset of the codes did.Parse accepts, which are a subset of the keys of DID.PubKey's unmarshaller table (type-resolved constants read off the CFG); (R2) layout — Parse stores the whole multibase payload and the code decoded from its varint prefix, FromPubKey builds varint(code) ++ key with the same code it stores, PubKey strips UvarintSize(code) bytes and selects the unmarshaller by the stored code; (R3) Parse cannot succeed without the did:key: prefix, multibase decoding, base58btc, varint decoding and a whitelisted code; (R4) canonical identifier — PubKey returns a key only if the DID re-derived from it with FromPubKey equals the receiver (or, alternative idiom, a length fact rules out the uncompressed secp256k1 form); (R5) the compressed-point unmarshaller checks the nil result of elliptic.UnmarshalCompressed. (R3, closed world) Parse refuses a string only for: missing did:key: prefix, multibase error, not base58btc, varint error, multicodec not whitelisted - any other rejection could refuse identifiers FromPubKey produces. Equality of keys after a round trip is the libraries' behaviour and is not decided. Key unmarshallers (func([]byte) (crypto.PubKey, error) in package did): every condition on a refusing path is the error / nil verdict of a library call. did.ToPubKey returns (DID).PubKey(did.Parse(text)). (R5) no Store in a function literal of package did has an address derived from a free variable. (R6) every success path of coerceECDSAToSecp256k1 carries the fact that the error of ParsePubKey is nil.",
 			Assumptions: []string{"go-multibase / go-varint / libp2p crypto / crypto/elliptic / crypto/x509 behave as documented"},
 			Trusted:     []string{"go-multibase", "go-varint", "go-libp2p/core/crypto", "crypto/elliptic", "crypto/x509", "golang.org/x/tools/go/ssa v0.29.0"},
 			NotDecided:  []string{"key equality after a round trip (library behaviour)", "strictness of the Ed25519 / RSA / compressed-point parsers"},
@@ -31,7 +31,8 @@ func runC16(x *Ctx) {
 	x.C.Rule("C16.R3", "Parse guards; no other cause of rejection", 6)
 	x.C.Rule("C16.R4", "PubKey only accepts the canonical identifier of the key; unmarshallers refuse only what the library refuses; ToPubKey goes through PubKey", 5)
 	x.C.Rule("C16.R5", "nil result of UnmarshalCompressed is rejected; the unmarshallers keep no state", 2)
-	x.C.Rule("C16.R6", "point coordinates are serialised with a fixed width", 1)
+	x.C.Rule("C16.R6", "point coordinates are serialised with a fixed width; a coerced secp256k1 key went through the point parser", 2)
+	defer pointValidated(x)
 	statelessUnmarshallers(x)
 
 	parse := x.fn("C16.R1", "did.Parse")
